@@ -103,8 +103,11 @@ def func(q):
     return mk("func", q)
 
 
+_EXT_SYNONYMS = {"math.inf": "np.inf", "np.Inf": "np.inf", "np.infty": "np.inf", "np.PINF": "np.inf", "np.Infinity": "np.inf", "math.nan": "np.nan", "np.NaN": "np.nan", "np.NAN": "np.nan", "math.pi": "np.pi", "math.e": "np.e"}
+
+
 def ext(q):
-    return mk("ext", q)
+    return mk("ext", _EXT_SYNONYMS.get(q, q))  # one spelling per library constant
 
 
 def unk(desc):
@@ -615,6 +618,13 @@ def call(fn, args=(), kw=()):
             return call(ext("np.array"), (mk("comp", "list", *args[0].a[1:]),))
     if name == "np.sum" and len(args) == 1 and len(kw) == 1 and kw[0][0] == "axis" and is_const(kw[0][1], 0) and _boolean_valued(args[0]):
         return call(mk("builtin", "sum"), (args[0],))  # mask.sum(axis=0) is the builtin sum over the first axis
+    if name in ("builtins.any", "builtins.all") and len(args) == 1 and not kw and args[0].op in ("tuple", "list") and len(args[0].a) >= 1 and all(_boolean_valued(z) for z in args[0].a):
+        # any((t1, t2, ..)) over a display of tests is t1 or t2 or ..; all(..) is the conjunction
+        if len(args[0].a) == 1:
+            return args[0].a[0]
+        return mk("bool", "or" if name == "builtins.any" else "and", *args[0].a)
+    if name == "builtins.float" and len(args) == 1 and not kw and args[0].op == "const" and isinstance(args[0].a[0], str) and args[0].a[0].strip().lower() in ("inf", "+inf", "infinity", "nan"):
+        return ext("np.nan" if args[0].a[0].strip().lower() == "nan" else "np.inf")  # float("inf")
     if name == "re.match" and len(args) == 2 and not kw and args[0].op == "glob":
         return method_call(args[0], "match", (args[1],))  # re.match(PATTERN, s) is PATTERN.match(s)
     if name == "builtins.len" and len(args) == 1 and not kw and args[0].op in ("tuple", "list") and not any(z.op == "star" for z in args[0].a):
